@@ -315,6 +315,7 @@ fn exec_iofault(case: &Case) -> CaseResult {
     let n = sites.len();
     let max_points = case.params.get("max_points").copied().unwrap_or(40) as usize;
     let mut rng = Rng::new(crate::rng::mix2(case.run_seed, 0x10FA));
+    let mut rrng = Rng::new(crate::rng::mix2(case.run_seed, 0x2EC0));
     let mut positions: Vec<usize> = (0..n).collect();
     if n > max_points {
         // stratify: first occurrence(s) of every (kind, class) pair, then a uniform sample
@@ -347,6 +348,10 @@ fn exec_iofault(case: &Case) -> CaseResult {
         for mode in modes {
             let mut c = case.clone();
             c.fault = Some(FaultSpec { at_call: p as u64, mode, keep: rng.below(64) });
+            if rrng.chance(1, 3) {
+                // a second, transient fault at the k-th filesystem call of the recovery that follows
+                c.params.insert("recovery_fault".to_string(), 1 + rrng.below(60) as i64);
+            }
             let r = run_case(&c, crate::iofault::body);
             total.stats.absorb(&r.stats);
             total.stats.bump("faulted_runs", 1);
